@@ -71,7 +71,7 @@ func puUndo(e *emitter, p *u.Proof, numAdds, numLeaves uint64, dels []uint64, de
 // genLightClient: a client holding only (stump, proof, hashes), updated from block data alone (C07),
 // undone newest-first and updated again (C08).
 func genLightClient(cfg runCfg, e *emitter, rng *rand.Rand, withUndo bool) {
-	nHist := tierN(cfg, 1000, 12000)
+	nHist := tierN(cfg, 2500, 12000)
 	for hI := 0; hI < nHist; hI++ {
 		e.line("CASE lc%d", hI)
 		e.line("RESET")
